@@ -114,6 +114,66 @@ def ancestorSetV (es : List Edge) (v : Nat) : Trav :=
   | .done vis steps => ⟨vis.reverse, steps + 1⟩
   | _ => ⟨[], 0⟩
 
+/-! ### `getAncestorSet` with its memo table, and the pair loops of `detectOutputConflicts` -/
+
+/-- the `ancestorCache` of output_conflicts.go: node ↦ its ancestor set -/
+abbrev Memo := List (Nat × List Nat)
+
+def Memo.get : Memo → Nat → Option (List Nat)
+  | [], _ => none
+  | (k, l) :: m, v => if k == v then some l else Memo.get m v
+
+/-- `for cachedAncestor := range cached { set[cachedAncestor] = struct{}{} }` -/
+def unionInto (l vis : List Nat) : List Nat :=
+  l.foldl (fun acc x => if acc.contains x then acc else x :: acc) vis
+
+/-- the loop of `getAncestorSet(node, cache)` on a cache miss for `node`, over `adj := succs es` (the caller
+    passes the flipped edges): pop; already in the set → skip; otherwise add it and — if the cache knows its
+    ancestors — merge them in (cost `1 + |cached|`) instead of expanding; else push its adjacency list.
+    Result: the set and the cost (pops + merged elements); `none` = out of fuel. -/
+def dfsMemo (es : List Edge) (memo : Memo) : Nat → List Nat → List Nat → Option (List Nat × Nat)
+  | _, [], vis => some (vis, 0)
+  | 0, _ :: _, _ => none
+  | fuel + 1, a :: rest, vis =>
+    if vis.contains a then (dfsMemo es memo fuel rest vis).map (fun r => (r.1, r.2 + 1))
+    else match memo.get a with
+      | some l => (dfsMemo es memo fuel rest (unionInto l (a :: vis))).map (fun r => (r.1, r.2 + 1 + l.length))
+      | none => (dfsMemo es memo fuel (succs es a ++ rest) (a :: vis)).map (fun r => (r.1, r.2 + 1))
+
+/-- state of the conflict pass: the memo table and the steps spent so far -/
+structure PassSt where
+  memo : Memo
+  cost : Nat
+
+/-- `getAncestorSet(graph, node, cache)`: one step for the lookup; on a miss the traversal, and the result is
+    stored -/
+def getSet (es : List Edge) (st : PassSt) (v : Nat) : Option (List Nat × PassSt) :=
+  match st.memo.get v with
+  | some l => some (l, { st with cost := st.cost + 1 })
+  | none =>
+    match dfsMemo es st.memo (2 * es.length) (succs es v) [] with
+    | some (set, c) => some (set, ⟨(v, set) :: st.memo, st.cost + 1 + c⟩)
+    | none => none
+
+/-- `targetsAreOrdered(graph, a, b, cache)` -/
+def targetsOrdered (es : List Edge) (st : PassSt) (a b : Nat) : Option (Bool × PassSt) :=
+  match getSet es st a with
+  | none => none
+  | some (sa, st1) =>
+    if sa.contains b then some (true, st1)
+    else match getSet es st1 b with
+      | none => none
+      | some (sb, st2) => some (sb.contains a, st2)
+
+/-- one of the pair loops of `detectOutputConflicts` (docker tags, equal file paths, dir × dir, dir × file):
+    one step per pair plus `targetsAreOrdered`; `pairs` are the target pairs of the output records compared -/
+def pairLoop (es : List Edge) : List (Nat × Nat) → PassSt → Option PassSt
+  | [], st => some st
+  | (a, b) :: rest, st =>
+    match targetsOrdered es { st with cost := st.cost + 1 } a b with
+    | none => none
+    | some (_, st') => pairLoop es rest st'
+
 /-- `GetDescendants(v)` before the fix. -/
 def descendantsPaths (es : List Edge) (fuel v : Nat) : List Nat := pathsFrom (succs es) fuel v
 /-- `GetAncestors(v)` before the fix. -/
